@@ -23,31 +23,33 @@ EXTENDS Integers, Sequences, FiniteSets, TLC, Json, IOUtils
 Traces == JsonDeserialize(IOEnv.TRACE_FILE)
 
 VARIABLES tid, l,
-          mref, mhasref, mlastok, macc, mid, mflags,                       \* monitor: blocks
+          mref, mhasref, mlastok, macc, mid, mflags, mcfg, msess,          \* monitor: blocks
           mlisten, mconn, msamples, mlsamples, myields, mdisc, mstopped, mearly, mdrained,   \* monitor: SyncLogger
           bad, badAt, cok, cokAt,
           toc, conf, phase, cur, tpl, lvars, ldef, valid, cid, hascf, added, started, pending, blocks,
-          idctr, link, dev, acks, inject, sync, nops, nfaults, ndata, ref, hasref, lastok, obs
+          idctr, link, dev, acks, inject, sync, nops, nfaults, ndata, nlate, layout, ref, hasref, lastok, obs
 
 \* which pre-fix behaviours the code under test has was probed by the harness (binding only; the
 \* monitor does not depend on it)
 TraceBugs == (IF IOEnv.C05_DUP = "1" THEN {"dup_readd"} ELSE {}) \cup
-             (IF IOEnv.C05_MEM = "1" THEN {"mem_raises"} ELSE {})
+             (IF IOEnv.C05_MEM = "1" THEN {"mem_raises"} ELSE {}) \cup
+             (IF IOEnv.C05_PARTIAL = "1" THEN {"partial_resolve"} ELSE {})
 
 D == INSTANCE LogBlocks WITH NC <- 2, TocC <- <<>>, VarAlpha <- {}, BasicAlpha <- {}, MaxFree <- 0,
                              MaxBasic <- 0, MaxUniform <- 0, Periods <- {}, Statuses <- {},
-                             MaxOps <- 1000000, MaxFaults <- 1000000, MaxData <- 1000000,
+                             MaxOps <- 1000000, MaxFaults <- 1000000, MaxData <- 1000000, MaxLate <- 1000000, TocAlts <- {},
                              IdMod <- 255, Bugs <- TraceBugs, WithSync <- FALSE
 P == INSTANCE LogBlocksProps
 
 Cs == 1..2
 T == Traces[tid]
 Ev == T.ev[l]
+CurToc == T.tocs[msess]          \* the device table of the current session
 
-monvars == <<mref, mhasref, mlastok, macc, mid, mflags, mlisten, mconn, msamples, mlsamples, myields, mdisc, mstopped,
+monvars == <<mref, mhasref, mlastok, macc, mid, mflags, mcfg, msess, mlisten, mconn, msamples, mlsamples, myields, mdisc, mstopped,
              mearly, mdrained>>
 specvars == <<toc, conf, phase, cur, tpl, lvars, ldef, valid, cid, hascf, added, started, pending, blocks,
-              idctr, link, dev, acks, inject, sync, nops, nfaults, ndata, ref, hasref, lastok, obs>>
+              idctr, link, dev, acks, inject, sync, nops, nfaults, ndata, nlate, layout, ref, hasref, lastok, obs>>
 
 IsDefault(v) == v.k = "toc" /\ v.f = 0
 
@@ -55,10 +57,12 @@ Init == /\ tid \in 1..Len(Traces) /\ l = 1
         /\ mref = [c \in Cs |-> <<>>] /\ mhasref = [c \in Cs |-> FALSE]
         /\ mlastok = [c \in Cs |-> FALSE] /\ macc = [c \in Cs |-> FALSE] /\ mid = [c \in Cs |-> 0]
         /\ mflags = [c \in Cs |-> [added |-> FALSE, started |-> FALSE]]
+        /\ mcfg = [c \in Cs |-> [period |-> Traces[tid].cfgs[c].period, vars |-> Traces[tid].cfgs[c].vars]]
+        /\ msess = 1
         /\ mlisten = FALSE /\ mconn = FALSE /\ msamples = <<>> /\ mlsamples = <<>> /\ myields = <<>> /\ mdisc = FALSE /\ mstopped = FALSE
         /\ mearly = FALSE /\ mdrained = FALSE
         /\ bad = "ok" /\ badAt = 0 /\ cok = TRUE /\ cokAt = 0
-        /\ toc = Traces[tid].toc
+        /\ toc = Traces[tid].tocs[1]
         /\ conf = [c \in Cs |-> [period |-> Traces[tid].cfgs[c].period, vars |-> Traces[tid].cfgs[c].vars]]
         /\ phase = "run" /\ cur = 2 /\ tpl = [c \in Cs |-> <<>>]
         /\ lvars = [c \in Cs |-> SelectSeq(Traces[tid].cfgs[c].vars, LAMBDA v : ~IsDefault(v))]
@@ -70,7 +74,8 @@ Init == /\ tid \in 1..Len(Traces) /\ l = 1
         /\ blocks = <<>> /\ idctr = 1 /\ link = TRUE
         /\ dev = D!EmptyFn /\ acks = <<>> /\ inject = 0
         /\ sync = D!Sync0
-        /\ nops = 0 /\ nfaults = 0 /\ ndata = 0
+        /\ nops = 0 /\ nfaults = 0 /\ ndata = 0 /\ nlate = 0
+        /\ layout = [c \in Cs |-> [set |-> FALSE, lt |-> <<>>]]
         /\ ref = [c \in Cs |-> <<>>] /\ hasref = [c \in Cs |-> FALSE] /\ lastok = [c \in Cs |-> FALSE]
         /\ obs = D!NoObs
 
@@ -100,7 +105,7 @@ MAdd ==
     /\ Ev.e = "add"
     /\ LET c == Ev.c
            ok == Ev.res = "ok"
-           a == P!AddClause(T.cfgs[c], T.toc, ~mhasref[c], mhasref[c] /\ ~macc[c], mref[c], Ev.res, Ev.vars)
+           a == P!AddClause(mcfg[c], CurToc, ~mhasref[c], mhasref[c] /\ ~macc[c], mref[c], Ev.res, Ev.vars)
        IN /\ Fail(IF Ev.before # mflags THEN "FlagsChangedWithoutAck" ELSE IF a # "ok" THEN a ELSE Quiet)
           /\ mref' = IF ok /\ ~mhasref[c] THEN [mref EXCEPT ![c] = Ev.vars] ELSE mref
           /\ mhasref' = IF ok THEN [mhasref EXCEPT ![c] = TRUE] ELSE mhasref
@@ -108,7 +113,7 @@ MAdd ==
           /\ macc' = IF ok THEN [macc EXCEPT ![c] = TRUE] ELSE macc
           /\ mid' = IF ok THEN [mid EXCEPT ![c] = Ev.id] ELSE mid
           /\ mflags' = Ev.after
-          /\ UNCHANGED <<mlisten, mconn, msamples, mlsamples, myields, mdisc, mstopped, mearly, mdrained>>
+          /\ UNCHANGED <<mcfg, msess, mlisten, mconn, msamples, mlsamples, myields, mdisc, mstopped, mearly, mdrained>>
           /\ Conform(/\ IF Ev.via = "sync" THEN D!SyncConnect1 ELSE D!AddConfig(c)
                      /\ obs'.res = Ev.res
                      /\ P!Keys(lvars'[c]) = P!Keys(Ev.vars) /\ ldef'[c] = Ev.ldef
@@ -118,13 +123,13 @@ MAdd ==
 MOp ==
     /\ Ev.e \in {"start", "stop", "delete"}
     /\ LET c == Ev.c
-           k == P!CreateClause(mref[c], T.toc, mid[c], Ev.sent)
+           k == P!CreateClause(mref[c], CurToc, mid[c], Ev.sent)
        IN /\ Fail(IF Ev.before # mflags THEN "FlagsChangedWithoutAck"
                   ELSE IF ~mlastok[c] /\ Ev.sent # <<>> THEN "SentForRejected"
-                  ELSE IF Ev.e = "start" /\ mlastok[c] /\ ~Ev.before[c].added /\ k # "ok" THEN k
+                  ELSE IF Ev.e = "start" /\ mlastok[c] /\ mhasref[c] /\ ~Ev.before[c].added /\ k # "ok" THEN k
                   ELSE Quiet)
           /\ mflags' = Ev.after
-          /\ UNCHANGED <<mref, mhasref, mlastok, macc, mid, mlisten, mconn, msamples, mlsamples, myields, mdisc, mstopped,
+          /\ UNCHANGED <<mref, mhasref, mlastok, macc, mid, mcfg, msess, mlisten, mconn, msamples, mlsamples, myields, mdisc, mstopped,
                          mearly, mdrained>>
           /\ Conform(/\ CASE Ev.e = "start" -> (IF Ev.via = "sync" THEN D!SyncConnect2 ELSE D!Start(c))
                           [] Ev.e = "stop" -> D!Stop(c)
@@ -141,7 +146,7 @@ MAck ==
             ELSE FirstBad([c \in Cs |-> P!AckClause(Ev.cmd, Ev.st_ack, macc[c] /\ mid[c] = Ev.id,
                                                     Ev.before[c], Ev.after[c], CbsOf(c))]))
     /\ mflags' = Ev.after
-    /\ UNCHANGED <<mref, mhasref, mlastok, macc, mid, mlisten, mconn, msamples, mlsamples, myields, mdisc, mstopped,
+    /\ UNCHANGED <<mref, mhasref, mlastok, macc, mid, mcfg, msess, mlisten, mconn, msamples, mlsamples, myields, mdisc, mstopped,
                    mearly, mdrained>>
     /\ Conform(/\ acks # <<>> /\ Head(acks) = [cmd |-> Ev.cmd, id |-> Ev.id, st |-> Ev.st_ack]
                /\ D!Deliver
@@ -158,7 +163,7 @@ MData ==
            d == P!PacketClause(Ev.types, Ev.wire, mine, Ev.gots, IF mine = 0 THEN 0 ELSE Len(mref[mine]))
        IN /\ Fail(IF Ev.before # mflags THEN "FlagsChangedWithoutAck" ELSE IF d # "ok" THEN d ELSE Quiet)
           /\ mflags' = Ev.after
-          /\ UNCHANGED <<mref, mhasref, mlastok, macc, mid, mlisten, mconn, msamples, mlsamples, myields, mdisc, mstopped, mearly,
+          /\ UNCHANGED <<mref, mhasref, mlastok, macc, mid, mcfg, msess, mlisten, mconn, msamples, mlsamples, myields, mdisc, mstopped, mearly,
                          mdrained>>
           /\ Conform(/\ D!Data(id, SubSeq(Ev.wire, 2, 4), SubSeq(Ev.wire, 5, Len(Ev.wire)))
                      /\ obs'.types = Ev.types /\ obs'.gots = Ev.gots
@@ -172,15 +177,26 @@ MDisc ==
     /\ mdisc' = (mdisc \/ Ev.sync)
     /\ mdrained' = IF Ev.sync /\ ~mdisc THEN Ev.drained ELSE mdrained
     /\ mlisten' = IF Ev.sync THEN FALSE ELSE mlisten
-    /\ UNCHANGED <<mref, mhasref, mlastok, macc, mid, mconn, msamples, mlsamples, myields, mstopped, mearly>>
+    /\ UNCHANGED <<mref, mhasref, mlastok, macc, mid, mcfg, msess, mconn, msamples, mlsamples, myields, mstopped, mearly>>
     /\ Conform(D!CloseLink /\ StMatch)
 MReconnect ==
     /\ Ev.e = "reconnect"
     /\ Fail(IF Ev.before # mflags THEN "FlagsChangedWithoutAck" ELSE "ok")
     /\ macc' = [c \in Cs |-> FALSE]
+    /\ msess' = msess + 1
     /\ mflags' = Ev.after
-    /\ UNCHANGED <<mref, mhasref, mlastok, mid, mlisten, mconn, msamples, mlsamples, myields, mdisc, mstopped, mearly, mdrained>>
-    /\ Conform(D!OpenLink /\ StMatch)
+    /\ UNCHANGED <<mref, mhasref, mlastok, mid, mcfg, mlisten, mconn, msamples, mlsamples, myields, mdisc, mstopped, mearly, mdrained>>
+    /\ Conform(D!OpenLink(T.tocs[msess + 1]) /\ StMatch)
+
+\* add_variable / add_memory on a LogConfig that was added before: the next successful add_config fixes the
+\* variable list anew
+MAddVar ==
+    /\ Ev.e = "addvar"
+    /\ mcfg' = [mcfg EXCEPT ![Ev.c].vars = Append(@, Ev.v)]
+    /\ mhasref' = [mhasref EXCEPT ![Ev.c] = FALSE]
+    /\ UNCHANGED <<bad, badAt, mref, mlastok, macc, mid, mflags, msess, mlisten, mconn, msamples, mlsamples, myields,
+                   mdisc, mstopped, mearly, mdrained>>
+    /\ Conform(D!AddVarLate(Ev.c, Ev.v))
 
 MEnv ==
     /\ Ev.e \in {"inject", "drop"}
@@ -191,7 +207,7 @@ MEnv ==
 MSBegin == /\ Ev.e \in {"sbegin", "sconnected", "sfail"}
            /\ mlisten' = (Ev.e # "sfail")
            /\ mconn' = (mconn \/ Ev.e = "sconnected")
-           /\ UNCHANGED <<bad, badAt, cok, cokAt, mref, mhasref, mlastok, macc, mid, mflags, msamples, mlsamples, myields,
+           /\ UNCHANGED <<bad, badAt, cok, cokAt, mref, mhasref, mlastok, macc, mid, mflags, mcfg, msess, msamples, mlsamples, myields,
                           mdisc, mstopped, mearly, mdrained>>
            /\ UNCHANGED specvars
 \* "sample": data_received_cb delivered a sample of one of the SyncLogger's configurations (logged by an
@@ -200,23 +216,23 @@ MSample == /\ Ev.e \in {"sample", "lsample"}
            /\ msamples' = IF Ev.e = "sample" /\ mlisten /\ (\E j \in DOMAIN T.synccs : T.synccs[j] = Ev.s.c)
                            THEN Append(msamples, Ev.s) ELSE msamples
            /\ mlsamples' = IF Ev.e = "lsample" THEN Append(mlsamples, Ev.s) ELSE mlsamples
-           /\ UNCHANGED <<bad, badAt, cok, cokAt, mref, mhasref, mlastok, macc, mid, mflags, mlisten, mconn, myields,
+           /\ UNCHANGED <<bad, badAt, cok, cokAt, mref, mhasref, mlastok, macc, mid, mflags, mcfg, msess, mlisten, mconn, myields,
                           mdisc, mstopped, mearly, mdrained>>
            /\ UNCHANGED specvars
 MYield == /\ Ev.e = "yield"
           /\ myields' = Append(myields, Ev.s)
-          /\ UNCHANGED <<bad, badAt, mref, mhasref, mlastok, macc, mid, mflags, mlisten, mconn, msamples, mlsamples, mdisc,
+          /\ UNCHANGED <<bad, badAt, mref, mhasref, mlastok, macc, mid, mflags, mcfg, msess, mlisten, mconn, msamples, mlsamples, mdisc,
                          mstopped, mearly, mdrained>>
           /\ Conform(D!SyncNext /\ sync'.yields = Append(sync.yields, Ev.s))
 MStop == /\ Ev.e = "sstop"
          /\ mstopped' = TRUE /\ mearly' = (mearly \/ ~mdisc)
-         /\ UNCHANGED <<bad, badAt, mref, mhasref, mlastok, macc, mid, mflags, mlisten, mconn, msamples, mlsamples, myields,
+         /\ UNCHANGED <<bad, badAt, mref, mhasref, mlastok, macc, mid, mflags, mcfg, msess, mlisten, mconn, msamples, mlsamples, myields,
                         mdisc, mdrained>>
          /\ Conform(D!SyncNext /\ sync'.st = "stopped")
 
 Step == /\ l <= Len(T.ev)
         /\ l' = l + 1 /\ UNCHANGED tid
-        /\ (MAdd \/ MOp \/ MAck \/ MData \/ MReconnect \/ MEnv \/ MSBegin \/ MSample \/ MDisc \/ MYield \/ MStop)
+        /\ (MAdd \/ MAddVar \/ MOp \/ MAck \/ MData \/ MReconnect \/ MEnv \/ MSBegin \/ MSample \/ MDisc \/ MYield \/ MStop)
 
 Finish == /\ l = Len(T.ev) + 1
           /\ l' = l + 1
